@@ -284,31 +284,6 @@ theorem aggEnvs_rel (O : Oracles) (q : AggStmt) (envs : List (Env × List String
     subst this
     exact ih hp.1 _
 
-def GoRel (p1 p2 : AggState × Option RowOut) : Prop := StRel p1.1 p2.1 ∧ p1.2 = p2.2
-
-theorem executeLine_go_rel (O : Oracles) (q : AggStmt) (envs : List (Env × List String)) {a b : AggState} (h : StRel a b)
-    (acc : Option RowOut) : ORel GoRel (executeLine.go O q envs a acc) (executeLine.go O q envs b acc) := by
-  induction envs generalizing a b acc with
-  | nil => exact ⟨h, rfl⟩
-  | cons p rest ih =>
-    obtain ⟨env, ks⟩ := p
-    unfold executeLine.go
-    refine ORel.bind (aggUpdateRow_rel O q env h) (fun p p' hp => ?_)
-    obtain ⟨s, u⟩ := p
-    obtain ⟨s', u'⟩ := p'
-    have : u = u' := hp.2
-    subst this
-    cases u with
-    | false => exact ih hp.1 acc
-    | true =>
-      simp only [if_true]
-      refine ORel.bind (aggResult_rel O q hp.1) (fun r r' hr => ?_)
-      obtain ⟨t, out⟩ := r
-      obtain ⟨t', out'⟩ := r'
-      have : out = out' := hr.2
-      subst this
-      exact ih hr.1 _
-
 theorem executeLine_rel (O : Oracles) (qy : Query) (idx : JoinIndex) (w : Bool) {a b : EngineState} (h : ERel a b) (l : Line) :
     ORel LineRel (executeLine O qy idx w a l) (executeLine O qy idx w b l) := by
   unfold executeLine
@@ -336,13 +311,25 @@ theorem executeLine_rel (O : Oracles) (qy : Query) (idx : JoinIndex) (w : Bool) 
       cases w with
       | true =>
         simp only [if_true]
-        refine ORel.bind (executeLine_go_rel O q envs h.agg none) (fun p p' hp => ?_)
-        obtain ⟨s, r⟩ := p
-        obtain ⟨s', r'⟩ := p'
-        have : r = r' := hp.2
+        refine ORel.bind (aggEnvs_rel O q envs h.agg false) (fun p p' hp => ?_)
+        obtain ⟨s, u⟩ := p
+        obtain ⟨s', u'⟩ := p'
+        have : u = u' := hp.2
         subst this
-        have e : ERel { a with agg := s } { b with agg := s' } := ⟨h.seen, hp.1, h.numOut⟩
-        exact updateLimit_rel false q.limit e _
+        cases u with
+        | false =>
+          simp only [Bool.false_eq_true, if_false]
+          have e : ERel { a with agg := s } { b with agg := s' } := ⟨h.seen, hp.1, h.numOut⟩
+          exact updateLimit_rel false q.limit e _
+        | true =>
+          simp only [if_true]
+          refine ORel.bind (aggResult_rel O q hp.1) (fun r r' hr => ?_)
+          obtain ⟨t, out⟩ := r
+          obtain ⟨t', out'⟩ := r'
+          have : out = out' := hr.2
+          subst this
+          have e : ERel { a with agg := t } { b with agg := t' } := ⟨h.seen, hr.1, h.numOut⟩
+          exact updateLimit_rel false q.limit e _
       | false =>
         simp only [Bool.false_eq_true, if_false]
         refine ORel.bind (aggEnvs_rel O q envs h.agg false) (fun p p' hp => ?_)
